@@ -64,8 +64,12 @@ Closed table "Python construct -> model term".  TRACKED state: the local assigne
   <x> = self.target_<s>                                     local bound to that SIDE
   if isinstance(<x>, Timeseries): <x> = <x>.values          local re-bound to the ENTRIES of the same side
   isinstance(SIDE, Timeseries)                              `g.target<S>.isSeries`   (on ENTRIES: REJECTED)
-  np.any(np.isfinite(SIDE | ENTRIES))                       `anyFinite g.target<S>`   (some entry finite)
-  np.all(np.isfinite(SIDE | ENTRIES))                       `allFinite g.target<S>`   (every entry finite)
+  np.any(np.isfinite(ENTRIES))                              `anyFinite g.target<S>`   (some entry finite)
+  np.all(np.isfinite(ENTRIES))                              `allFinite g.target<S>`   (every entry finite)
+  isinstance(SIDE, Timeseries) or ... np.any|all(np.isfinite(SIDE))
+                                                            the same on an unconverted SIDE, ONLY to the right of that
+                                                            `isinstance` test in one `or` (short-circuit: np.isfinite of a
+                                                            Timeseries raises TypeError); unguarded: REJECTED
   <b> = <bool expr>  /  not, and, or, True, False, <b>      Bool local / `!`, `&&`, `||`, `true`, `false`
   if <bool expr>: return <bool expr>   (no else)            `if c then r else <rest of the body>`
   return <bool expr>                                        the value;  comments / docstrings: no effect
@@ -525,24 +529,40 @@ def translate_is_empty():
             and isinstance(node.func.value, ast.Name) and node.func.value.id in ("np", "numpy") \
             and len(node.args) == 1 and not node.keywords
 
-    def expr(node):
+    def is_series_test(node):
+        """`isinstance(SIDE, Timeseries)` on an unconverted side -> that side, else None"""
+        if isinstance(node, ast.Call) and isinstance(node.func, ast.Name) and node.func.id == "isinstance" \
+                and len(node.args) == 2 and isinstance(node.args[1], ast.Name) and node.args[1].id == "Timeseries":
+            sd = side(node.args[0])
+            if sd is not None and not sd.entries:
+                return sd
+        return None
+
+    def expr(node, guarded=frozenset()):
+        """`guarded`: sides known NOT to be a Timeseries where this expression is evaluated (short-circuit `or`)"""
         if isinstance(node, ast.Constant) and isinstance(node.value, bool):
             return "true" if node.value else "false"
         if isinstance(node, ast.Name) and isinstance(env.get(node.id), str):
             return env[node.id]
         if isinstance(node, ast.UnaryOp) and isinstance(node.op, ast.Not):
-            return "(!%s)" % expr(node.operand)
+            return "(!%s)" % expr(node.operand, guarded)
         if isinstance(node, ast.BoolOp):
-            op = " && " if isinstance(node.op, ast.And) else " || "
-            return "(" + op.join(expr(v) for v in node.values) + ")"
-        if isinstance(node, ast.Call) and isinstance(node.func, ast.Name) and node.func.id == "isinstance" \
-                and len(node.args) == 2 and isinstance(node.args[1], ast.Name) and node.args[1].id == "Timeseries":
-            sd = side(node.args[0])
-            if sd is not None and not sd.entries:
-                return sd.lean + ".isSeries"
+            parts = []
+            for v in node.values:
+                parts.append(expr(v, guarded))
+                sd = is_series_test(v)
+                if sd is not None and isinstance(node.op, ast.Or):
+                    guarded = guarded | {sd.side}  # later operands run only if this side is no Timeseries
+            return "(" + (" && " if isinstance(node.op, ast.And) else " || ").join(parts) + ")"
+        sd = is_series_test(node)
+        if sd is not None:
+            return sd.lean + ".isSeries"
         if np_call(node, ("any", "all")) and np_call(node.args[0], ("isfinite",)):
             sd = side(node.args[0].args[0])
             if sd is not None:
+                if not sd.entries and sd.side not in guarded:
+                    raise TranslationError("Goal.is_empty: np.isfinite() applied to target_%s where it may still be a "
+                                           "Timeseries (raises TypeError): %s" % (sd.side, _dump(node)))
                 return "(%s %s)" % ("anyFinite" if node.func.attr == "any" else "allFinite", sd.lean)
         raise TranslationError("Goal.is_empty: expression outside the table: " + _dump(node))
 
